@@ -311,11 +311,29 @@ package eventbus
 //@   loop 2 invariant [rm.distinct] {C01,C02,C04} forall a int, b int :: {handlers__2[a], handlers__2[b]} 0 <= a && a < b && b < len(handlers__2) ==> handlers__2[a] != handlers__2[b]
 //@   loop 2 invariant [rm.elems] {C01,C02,C04} forall a int :: {handlers__2[a]} 0 <= a && a < len(handlers__2) ==> allocated(handlers__2[a]) && shared(handlers__2[a])
 //@   loop 2 invariant [C04.rm.removed] {C04,C01} forall q int, k int :: {onceHandlersToRemove[q], handlers__2[k]} 0 <= q && q <= rangeindex__2 && 0 <= k && k < len(handlers__2) ==> handlers__2[k] != onceHandlersToRemove[q]
+// one step of the retirement loop either leaves the list alone (no match) or removes exactly the matching element, shifting the tail down by one
+//@   loop 2 iter [rm.step.cases] len(handlers__2) == iterold(len(handlers__2)) || len(handlers__2) == iterold(len(handlers__2)) - 1
+//@   loop 2 iter [rm.step.same] len(handlers__2) == iterold(len(handlers__2)) ==> seqeq(handlers__2, iterold(handlers__2)) &&
+//@        (forall k int :: {iterold(handlers__2[k])} 0 <= k && k < iterold(len(handlers__2)) ==> iterold(handlers__2[k]) != onceHandler)
+//@   loop 2 iter [rm.step.fwd] len(handlers__2) == iterold(len(handlers__2)) - 1 ==> 0 <= i && i < iterold(len(handlers__2)) && iterold(handlers__2[i]) == onceHandler &&
+//@        (forall k int :: {handlers__2[k]} 0 <= k && k < len(handlers__2) ==> handlers__2[k] == ite(k < i, iterold(handlers__2[k]), iterold(handlers__2[k + 1])))
+//@   loop 2 iter [rm.step.inv] len(handlers__2) == iterold(len(handlers__2)) - 1 ==>
+//@        (forall k int :: {iterold(handlers__2[k])} 0 <= k && k < iterold(len(handlers__2)) && k != i ==> iterold(handlers__2[k]) == handlers__2[ite(k < i, k, k - 1)])
+//@   loop 2 invariant [C01.rm.subset] {C01,C02} forall k int :: {handlers__2[k]} 0 <= k && k < len(handlers__2) ==>
+//@        (exists m int :: 0 <= m && m < len(acq(shard.handlers[eventType])) && handlers__2[k] == acqat(shard.handlers[eventType], m))
+//@   loop 2 invariant [C01.rm.kept] {C01,C02} forall m int :: {acqat(shard.handlers[eventType], m)} 0 <= m && m < len(acq(shard.handlers[eventType])) &&
+//@        (forall q int :: {onceHandlersToRemove[q]} 0 <= q && q <= rangeindex__2 ==> acqat(shard.handlers[eventType], m) != onceHandlersToRemove[q]) ==>
+//@        (exists k int :: 0 <= k && k < len(handlers__2) && handlers__2[k] == acqat(shard.handlers[eventType], m))
 //@   loop 2 invariant [rm.R.stable] seqeq(onceHandlersToRemove, loopentry(onceHandlersToRemove)) && sarr(onceHandlersToRemove) != sarr(handlers__2)
 //@   loop 3 invariant [idx3] rangeindex__3 < len(handlers__2) && -1 <= rangeindex__3
 //@   loop 3 invariant [rm.nomatch] forall k int :: {handlers__2[k]} 0 <= k && k <= rangeindex__3 ==> handlers__2[k] != onceHandler
 //@   loop 3 invariant [rm.inner.stable] handlers__2 == loopentry(handlers__2) && seqeq(handlers__2, loopentry(handlers__2))
 //@   ensures [C04.rm.section] {C04,C01} cnt(lockShard) == 1 + ite(len(onceHandlersToRemove) > 0, 1, 0) && cnt(unlockShard) == cnt(lockShard)
+//@   at unlock:shard.mu#W1 assert [C01.rm.kept.final] {C01,C02} forall m int :: {acqat(shard.handlers[eventType], m)} 0 <= m && m < len(acq(shard.handlers[eventType])) &&
+//@        (forall q int :: {onceHandlersToRemove[q]} 0 <= q && q < len(onceHandlersToRemove) ==> acqat(shard.handlers[eventType], m) != onceHandlersToRemove[q]) ==>
+//@        (exists k int :: 0 <= k && k < len(shard.handlers[eventType]) && shard.handlers[eventType][k] == acqat(shard.handlers[eventType], m))
+//@   at unlock:shard.mu#W1 assert [C01.rm.subset.final] {C01,C02} forall k int :: {shard.handlers[eventType][k]} 0 <= k && k < len(shard.handlers[eventType]) ==>
+//@        (exists m int :: 0 <= m && m < len(acq(shard.handlers[eventType])) && shard.handlers[eventType][k] == acqat(shard.handlers[eventType], m))
 //@   at unlock:shard.mu#W1 assert [C04.rm.retired] {C04,C01} forall q int, k int :: {onceHandlersToRemove[q], shard.handlers[eventType][k]} 0 <= q && q < len(onceHandlersToRemove) && 0 <= k && k < len(shard.handlers[eventType]) ==>
 //@        shard.handlers[eventType][k] != onceHandlersToRemove[q]
 //@   at unlock:shard.mu#W1 assert [cs.rm.frame] {C01,C02} forall t type, k int :: {shard.handlers[t][k]} t != eventType && 0 <= k && k < len(acq(shard.handlers[t])) ==>
